@@ -107,6 +107,15 @@ pub fn gen(seed: u64, n: usize) -> Vec<Value> {
         .map(|(k, _)| {
             // one case in fifty is a corpus of several hundred lines: with a handful of lines the first worker thread has
             // drained the file before the others start, so nothing is ever merged across workers
+            // one corpus per run counts a word more than 65 536 times (4800 lines of 14 occurrences), next to a rare one
+            if k == 3 {
+                let mut lines: Vec<Vec<u64>> = (0..4800).map(|_| (0..14).flat_map(|_| [2u64, 1]).collect()).collect();
+                lines.push(vec![3, 1, 3, 1, 4]);
+                let ms = [-1i64, 1, 2][rng.random_range(0..3)];
+                let md = ["word", "char1"][rng.random_range(0..2)];
+                return json!({"lines": lines, "max_size": ms, "max_seq": -1, "mode": md,
+                              "threads": [0, 3], "split": 2400, "queries": [[2]]});
+            }
             let nl = if k % 50 == 7 { rng.random_range(300..=600) } else { rng.random_range(0..=8) };
             let lines: Vec<Vec<u64>> = (0..nl)
                 .map(|_| (0..rng.random_range(0..=12)).map(|_| [1u64, 1, 2, 2, 3, 3, 4, 5, 6, 8][rng.random_range(0..10)]).collect())
